@@ -15,6 +15,7 @@ import (
 	"verif/internal/core"
 	"verif/internal/ref"
 	"verif/internal/simnet"
+	"verif/internal/val"
 )
 
 func init() {
@@ -142,6 +143,19 @@ func c13Success(r *core.Run, ci int64, rng *rand.Rand, crev, srev int, dial bool
 		opt.Compression = []ch.Compression{ch.CompressionLZ4, ch.CompressionZSTD, ch.CompressionNone}[int(ci/2)%3]
 	}
 	script.OnQuery = func(rq *ref.Query) []simnet.Item {
+		if rq.Body == "SELECT auto" {
+			// a result read through inference (Results.Auto): header, three rows, end
+			blk := func(n int) *ref.Block {
+				b := &ref.Block{Rows: n, Info: ref.BlockInfo{Bucket: -1}, Cols: []ref.Col{{Name: "n", Type: "UInt8"}, {Name: "s", Type: "String"}}}
+				for i := 0; i < n; i++ {
+					b.Cols[0].Vals = append(b.Cols[0].Vals, ref.Leaf([]byte{byte(i * 7)}))
+					b.Cols[1].Vals = append(b.Cols[1].Vals, ref.Leaf([]byte{byte('a' + i)}))
+				}
+				return b
+			}
+			z := rq.Compression == 1
+			return []simnet.Item{{Data: simnet.PacketData(neg, ref.ServerDataCode, blk(0), z, ref.MethodLZ4)}, {Data: simnet.PacketData(neg, ref.ServerDataCode, blk(3), z, ref.MethodLZ4)}, {Data: simnet.PacketEnd()}}
+		}
 		if strings.HasPrefix(rq.Body, "INSERT") {
 			hdr := &ref.Block{Cols: []ref.Col{{Name: "n", Type: "UInt64"}, {Name: "s", Type: "String"}}}
 			return []simnet.Item{{Data: simnet.PacketData(neg, ref.ServerDataCode, hdr, rq.Compression == 1, ref.MethodLZ4)}}
@@ -165,7 +179,9 @@ func c13Success(r *core.Run, ci int64, rng *rand.Rand, crev, srev int, dial bool
 	var client *ch.Client
 	var err error
 	var gotProg *proto.Progress
-	var derr, perr, ierr error
+	var derr, perr, ierr, aerr error
+	var autoRows int
+	var autoVals string
 	var atReturn []string
 	ok := runWithWatchdog(40*time.Second, func() {
 		if dial {
@@ -186,6 +202,26 @@ func c13Success(r *core.Run, ci int64, rng *rand.Rand, crev, srev int, dial bool
 			gotProg = &p
 			return nil
 		}})
+		if derr == nil {
+			var ares proto.Results
+			aerr = client.Do(ctx, ch.Query{Body: "SELECT auto", Result: ares.Auto(), OnResult: func(ctx context.Context, b proto.Block) error {
+				if b.Rows == 0 {
+					return nil
+				}
+				autoRows += b.Rows
+				if len(ares) == 2 && ares[0].Data.Rows() == 3 && ares[1].Data.Rows() == 3 {
+					t8, _ := ref.ParseType("UInt8")
+					if vs, err := val.ReadCol(ares[0].Data, t8); err == nil {
+						var xs []uint8
+						for _, v := range vs {
+							xs = append(xs, v.B[0])
+						}
+						autoVals = fmt.Sprint(xs)
+					}
+				}
+				return nil
+			}})
+		}
 		if derr == nil {
 			// a block with columns in the other direction, at the same revision
 			cn, cs := new(proto.ColUInt64), new(proto.ColStr)
@@ -213,9 +249,12 @@ func c13Success(r *core.Run, ci int64, rng *rand.Rand, crev, srev int, dial bool
 		fail("client-stream-not-at-negotiated-revision", fmt.Sprintf("the reference parser at revision %d rejects the client stream: %v", neg, sim.Srv.Err))
 		return
 	}
-	if perr != nil || derr != nil || ierr != nil {
-		fail("followup-failed", fmt.Sprintf("Ping=%v Do=%v insert=%v", perr, derr, ierr))
+	if perr != nil || derr != nil || ierr != nil || aerr != nil {
+		fail("followup-failed", fmt.Sprintf("Ping=%v Do=%v insert=%v inferred select=%v", perr, derr, ierr, aerr))
 		return
+	}
+	if autoRows != 3 || autoVals != "[0 7 14]" {
+		fail("inferred-result-at-negotiated-revision", fmt.Sprintf("a result of 3 rows [0 7 14] read through Results.Auto() at revision %d came back as %d rows %s", neg, autoRows, autoVals))
 	}
 	// server identity as sent, gated by the client's own revision
 	si := client.ServerInfo()
